@@ -25,7 +25,7 @@ from pathlib import Path
 from vlib import driver
 from vlib.framework import WORK
 
-from . import c17gen
+from . import c17gen, c17suite
 from .c08 import _val, close, lean_val
 
 PROPS = ["MxlVerif.Props.C17"]
@@ -228,7 +228,7 @@ def uses_all(rng, g, m, names):
 
 
 def gen_doc(rng, *, stratum: str):
-    """stratum: exact | float | keywords | mixed | srefkw | compkw | initname | digits | gennames | rewrite | gencollide | sparse | nearequal | idcollide"""
+    """stratum: exact | float | keywords | mixed | srefkw | compkw | initname | digits | gennames | rewrite | gencollide | sparse | nearequal | idcollide | boolnum | boundary | shadow"""
     floaty = stratum == "float"
     GM.SMOOTH = stratum == "digits"
     kw = stratum == "keywords"
@@ -250,13 +250,19 @@ def gen_doc(rng, *, stratum: str):
             kd = ["conc", "amount", "hosu"][i % 3]
         species.append({"id": sid, "comp": rng.choice(comps)[0] if stratum != "mixed" else comps[0][0],
                         "init": rng.choice(["0", "1", "2", "3", "1/2", "5/2", "6"]),
-                        "isAmount": kd in ("amount", "hosu"), "hosu": kd in ("hosu", "conc_hosu")})
+                        "isAmount": kd in ("amount", "hosu"), "hosu": kd in ("hosu", "conc_hosu"),
+                        # boundaryCondition: takes part in reactions, is not changed by them
+                        "fixed": stratum == "boundary" and (i == 0 or rng.random() < 0.3)})
     if stratum == "mixed":
         comps[0][1] = rng.choice(["2", "1/2", "4"])
     npar = rng.choice([1, 2, 3])
     pids = rng.sample(pool_p, npar)
     if kw:
         pids[0] = rng.choice(KEYWORD_IDS[4:8])
+    if stratum == "shadow":
+        # an id that is a usable Python name but means something in the generated module: a builtin the printed
+        # bodies call, a module they reach into
+        pids[0] = rng.choice(SHADOW_IDS)
     params, inits, rules = [], [], []
     const_ps = []
     raw = {}
@@ -350,6 +356,10 @@ def gen_doc(rng, *, stratum: str):
         if stratum == "mixed":
             law = ["AST_TIMES", [["ci", comps[0][0]], law]]
         law = uses_all(rng, g, law, [sp["id"] for sp in parts][:1])
+        if stratum == "shadow":
+            p0 = ["ci", pids[0]]
+            law = ["AST_PLUS", [law, ["AST_FUNCTION_ABS", [p0]], ["AST_FUNCTION_MAX", [p0, ["cn", "1"]]],
+                                ["AST_FUNCTION_MIN", [p0, ["cn", "3"]]], ["AST_FUNCTION_CEILING", [p0]]]]
         rxns.append({"id": rid, "reactants": reactants, "products": products, "law": law})
     if stratum == "gennames":
         # a reaction called like a helper function the importer generates: <R>_stoich_<S> for a reaction R acting
@@ -494,7 +504,24 @@ def gen_doc(rng, *, stratum: str):
         params.append([a_, "2"])
         params.append([b_, "5"])
         rxns[0]["law"] = ["AST_PLUS", [rxns[0]["law"], ["AST_TIMES", [["ci", a_], ["AST_PLUS", [["ci", b_], ["cn", "1"]]]]]]]
-    finding = {"mixed": "F-C17-4", "srefkw": "F-C17-5", "compkw": "F-C17-6", "idcollide": "F-C17-10"}.get(stratum)
+    if stratum == "shadow" and rng.random() < 0.4:
+        # the same for the id of a reaction: its function is defined at module level under that name (F-C17-14)
+        rxns[-1]["id"] = rng.choice([i for i in SHADOW_IDS if i != pids[0]])
+    finding = {"mixed": "F-C17-4", "srefkw": "F-C17-5", "compkw": "F-C17-6", "idcollide": "F-C17-10",
+               "boolnum": "F-C17-11"}.get(stratum)
+    if stratum == "boundary" and any(sp["fixed"] and sp["hosu"] and Fraction(dict(comps)[sp["comp"]]) != 1 for sp in species):
+        # third party: a boundary species with hasOnlySubstanceUnits in a compartment of size != 1 (F-C17-12)
+        finding = "F-C17-12"
+    if stratum == "shadow" and rxns[-1]["id"] in SHADOW_IDS:
+        finding = "F-C17-14"
+    if stratum == "boolnum":
+        # L3v2 lets a truth value stand for 0 / 1 (suite case 01288: the kinetic law <true/>): as a factor or a summand
+        r = rng.choice(rxns)
+        cond = rng.choice([["csym", "true"], ["csym", "false"],
+                           ["AST_RELATIONAL_LT", [["ci", species[0]["id"]], ["cn", rng.choice(["1", "2", "3"])]]],
+                           ["AST_RELATIONAL_GEQ", [["ci", species[0]["id"]], ["ci", pids[0]]]]])
+        r["law"] = rng.choice([cond, ["AST_TIMES", [r["law"], cond]], ["AST_PLUS", [r["law"], cond]]]) \
+            if cond[0] == "csym" else rng.choice([["AST_TIMES", [r["law"], cond]], ["AST_PLUS", [r["law"], cond]]])
     if stratum == "srefkw" and sref_n == 0:
         finding = None
     all_ids = ([c for c, _ in comps] + [s["id"] for s in species] + [p for p, _ in params] + [f["id"] for f in fundefs]
@@ -516,6 +543,19 @@ def gen_doc(rng, *, stratum: str):
                         x[1] = str(amount)
     doc = {"comps": comps, "species": species, "params": params, "fundefs": fundefs, "inits": inits, "rules": rules,
            "rxns": rxns}
+    if any(sp.get("fixed") for sp in species):
+        # a boundary species may be imported as a parameter: the states keep the amount the document gives it
+        try:
+            spec = DocSpec(doc)
+            for sp in species:
+                if sp.get("fixed"):
+                    a = _val(spec.init_amount(sp["id"]))
+                    for st in states:
+                        for x in st:
+                            if x[0] == sp["id"]:
+                                x[1] = a
+        except (ZeroDivisionError, ValueError, OverflowError, RecursionError, KeyError):
+            return gen_doc(rng, stratum=stratum)
     prev_doc = None
     if stratum == "rewrite":
         # the document that was at this path before: the same text but for one digit (same byte length), or an
@@ -686,6 +726,8 @@ class DocSpec:
         return float(Fraction(st))
 
     def rhs(self, sid, amounts):
+        if self.sp[sid].get("fixed"):
+            return 0.0  # boundaryCondition / constant: reactions do not change it
         tot = 0.0
         for r in self.d["rxns"]:
             net = sum(self.coef(x, amounts) for x in r["products"] if x[0] == sid) - sum(
@@ -765,7 +807,7 @@ def write_doc(doc, path: Path, raw=None):
         ok(sp.setId(s["id"]))
         sp.setCompartment(s["comp"])
         sp.setConstant(False)
-        sp.setBoundaryCondition(False)
+        sp.setBoundaryCondition(bool(s.get("fixed")))
         sp.setHasOnlySubstanceUnits(s["hosu"])
         if s["init"] is not None:
             (sp.setInitialAmount if s["isAmount"] else sp.setInitialConcentration)(float(Fraction(s["init"])))
@@ -834,12 +876,19 @@ def eval_imported(m, case, imp):
     conc_repr = {}
     for s in doc["species"]:
         n = imp.get(s["id"], s["id"])
-        conc_repr[s["id"]] = f"{n}_amount" in all_names
+        # `<n>_amount` next to it: <n> is the concentration; `<n>_conc` next to it: <n> is the amount; no companion (a
+        # constant species kept as a parameter): <n> is what the identifier means in math
+        conc_repr[s["id"]] = f"{n}_amount" in all_names or (f"{n}_conc" not in all_names and not s["hosu"])
     out = {"init": {}, "at": [], "missing": []}
     ic = m.get_initial_conditions()
     for s in doc["species"]:
         n = imp.get(s["id"], s["id"])
         if n not in names:
+            if s.get("fixed") and n in all_names:
+                # a boundary / constant species may come back as a parameter (or a quantity derived from one)
+                v = float(a0[n])
+                out["init"][s["id"]] = _val(v * comp[s["comp"]] if conc_repr[s["id"]] else v)
+                continue
             out["missing"].append(s["id"])
             continue
         v = float(ic[n])
@@ -853,15 +902,23 @@ def eval_imported(m, case, imp):
             out["missing"].append(p)
             continue
         out["init"][p] = _val(a0[n])
+    # a parameter nothing changes may come back as a state variable with derivative 0 (pysbml does that for
+    # constant="false"): it keeps its initial value in every state, and its derivative is checked to be 0
+    extra = {imp.get(p, p): p for p, _ in doc["params"] if imp.get(p, p) in names}
     for st in case["states"]:
-        vs = {}
+        vs = {n: float(ic[n]) for n in extra}
         for sid, a in st:
             n = imp.get(sid, sid)
             s = next(x for x in doc["species"] if x["id"] == sid)
+            if n not in names:
+                continue  # a fixed species that is no state variable: the states keep its initial amount
             a = float(Fraction(a))
             vs[n] = a / comp[s["comp"]] if conc_repr[sid] else a
         args = m.get_args(variables=vs)
         rhs = m.get_right_hand_side(variables=vs)
+        for n, p in extra.items():
+            if float(rhs[n]) != 0.0 and f"{p}:derivative" not in out["missing"]:
+                out["missing"].append(f"{p}:derivative")
         vals = {}
         for w in case["watch"]:
             n = imp.get(w, w)
@@ -872,6 +929,8 @@ def eval_imported(m, case, imp):
             if n in rhs.index:
                 v = float(rhs[n])
                 rr[s["id"]] = _val(v * comp[s["comp"]] if conc_repr[s["id"]] else v)
+            elif s.get("fixed") and n in all_names:
+                rr[s["id"]] = "0"  # not a state variable: constant
             else:
                 rr[s["id"]] = None
         out["at"].append({"vals": vals, "rhs": rr})
@@ -934,6 +993,18 @@ def _cleanup(paths, prefixes):
             sys.modules.pop(k, None)
 
 
+def _observe_read(m, path):
+    """(stem, digest of the file's bytes, sha1 of the module text), module name — None for a model without functions"""
+    import hashlib
+
+    fns = [c.fn for c in list(m.get_raw_reactions().values()) + list(m.get_raw_derived().values())]
+    if not fns:
+        return None
+    mod = fns[0].__module__
+    text = Path(sys.modules[mod].__file__).read_text()
+    return [path.stem, hashlib.sha256(path.read_bytes()).hexdigest()[:DIGEST_LEN[0]], hashlib.sha1(text.encode()).hexdigest()], mod
+
+
 def real_worker(job):
     import warnings
 
@@ -954,12 +1025,17 @@ def real_worker(job):
             write_doc(case["prev_doc"], path)
             st = path.stat()
             try:
-                sbml.read(path)
+                mprev = sbml.read(path)
+                out_prev = _observe_read(mprev, path)
             except Exception:  # noqa: BLE001
-                pass
+                out_prev = None
             write_doc(case["doc"], path, case.get("raw"))
             if case.get("keep_mtime"):
                 os.utime(path, ns=(st.st_atime_ns, st.st_mtime_ns))
+        elif case.get("xml_path"):
+            # a document of the SBML test suite: the original text is what the importer reads
+            path.parent.mkdir(parents=True, exist_ok=True)
+            shutil.copyfile(case["xml_path"], path)
         else:
             write_doc(case["doc"], path, case.get("raw"))
         try:
@@ -971,6 +1047,11 @@ def real_worker(job):
             fns = [c.fn for c in list(m.get_raw_reactions().values()) + list(m.get_raw_derived().values())]
             out["module"] = fns[0].__module__ if fns else None
             out["stem"] = path.stem
+            if case.get("prev_doc") is not None and fns and out_prev is not None:
+                # what the session model speaks about: the two reads of this path (stem, digest, code), the module names
+                now = _observe_read(m, path)
+                if now is not None:
+                    out["session"] = {"reads": [out_prev[0], now[0]], "modules": [out_prev[1], now[1]]}
         except Exception as e:  # noqa: BLE001
             return {"err": "eval:" + type(e).__name__, "msg": str(e)[:200]}
         try:
@@ -992,6 +1073,10 @@ def real_worker(job):
         shutil.rmtree(path.parent, ignore_errors=True)
 
 
+#: number of hex digits of the content digest in the module name (read from the source by translate/c17.py in setup)
+DIGEST_LEN = [12]
+
+
 def pair_worker(job):
     """two documents whose stems normalise alike, one session: A, then B, then A again"""
     import warnings
@@ -1011,15 +1096,25 @@ def pair_worker(job):
         write_doc(ca["doc"], pa)
         write_doc(cb["doc"], pb)
         try:
+            import hashlib
+
+            def observed(m, p):
+                """what the session model speaks about: stem, digest of the bytes, module name, text of the module file"""
+                mod = next(iter(m.get_raw_reactions().values())).fn.__module__
+                text = Path(sys.modules[mod].__file__).read_text()
+                return [p.stem, hashlib.sha256(p.read_bytes()).hexdigest()[:DIGEST_LEN[0]], hashlib.sha1(text.encode()).hexdigest()], mod
+
             ma = sbml.read(pa)
             first = eval_imported(ma, ca, ia)
+            sa, mod_a = observed(ma, pa)
             mb = sbml.read(pb)
             b = eval_imported(mb, cb, ib)
+            sb, mod_b = observed(mb, pb)
             again = eval_imported(ma, ca, ia)
+            file_a_now = hashlib.sha1(Path(sys.modules[mod_a].__file__).read_text().encode()).hexdigest()
             return {"a": first, "b": b, "a_again": again, "a_source_ok": source_consistent(ma),
                     "b_source_ok": source_consistent(mb),
-                    "modules": [next(iter(ma.get_raw_reactions().values())).fn.__module__,
-                                next(iter(mb.get_raw_reactions().values())).fn.__module__],
+                    "modules": [mod_a, mod_b], "session": [sa, sb], "a_file_intact": file_a_now == sa[2],
                     "stems": [pa.stem, pb.stem]}
         except Exception as e:  # noqa: BLE001
             return {"err": type(e).__name__, "msg": str(e)[:200]}
@@ -1094,6 +1189,8 @@ def spec_numbers(case):
 
 def judge_doc(ctx, case, R, M, S=None, what="imported model differs from the document"):
     small = {k: case.get(k) for k in ("kind", "doc", "states", "watch", "finding", "stem", "raw", "prev_doc", "keep_mtime")}
+    if case.get("xml_path"):
+        small["xml_path"], small["suite"] = case["xml_path"], case.get("suite")
     S = S or spec_numbers(case)
     stats: dict = {}
     if M is not None:
@@ -1108,14 +1205,86 @@ def judge_doc(ctx, case, R, M, S=None, what="imported model differs from the doc
         # exact only for parameters that carry one of the long literals and are not overridden by an assignment
         assigned = {k for k, _ in case["doc"].get("inits", [])} | {k for k, _ in case["doc"].get("rules", [])}
         exact = set(case.get("raw") or {}) - assigned if case["kind"] == "digits" else ()
-        Rv = snap(R, S, stats, exact_init=exact, tight=case["kind"] not in ("float", "digits", "mixed"))
+        Rv = snap(R, S, stats, exact_init=exact, tight=case["kind"] not in ("float", "digits", "mixed", "suite"))
     for k, v in stats.items():
         ctx.hist[f"numbers {k}"] = ctx.hist.get(f"numbers {k}", 0) + v
     finding = case["finding"]
     if finding is None and Rv == {"err": "import:AttributeError"} and _uses(case["doc"], "AST_LOGICAL_XOR") \
             and _uses(case["doc"], "AST_FUNCTION_PIECEWISE"):
         finding = "F-C17-8"  # sympy: 'Xor' object has no attribute '_eval_as_set' (piecewise terms under an xor condition)
+    if finding is None and Rv == {"err": "import:TypeError"} and bool_as_number(case["doc"]):
+        finding = "F-C17-11"  # sympy: BooleanAtom not allowed in this context (suite case 01288)
     return ctx.judge(small, Rv, S, None, finding=finding, what=what)
+
+
+def doc_constructs(doc) -> list[str]:
+    """SBML constructs a document uses (what the generator / the suite sample reaches; printed into the evidence)"""
+    c = set()
+    if len(doc["comps"]) > 1:
+        c.add("several compartments")
+    if any(Fraction(v) != 1 for _, v in doc["comps"]):
+        c.add("compartment size != 1")
+    for sp in doc["species"]:
+        c.add("species " + ("amount" if sp["isAmount"] else "concentration") + (" hasOnlySubstanceUnits" if sp["hosu"] else ""))
+        if sp["init"] is None:
+            c.add("species without value attribute")
+    sids = {sp["id"] for sp in doc["species"]}
+    pids = {p for p, _ in doc["params"]}
+    if doc["fundefs"]:
+        c.add("function definition")
+    if any(k in sids for k, _ in doc["inits"]):
+        c.add("initial assignment on species")
+    if any(k in pids for k, _ in doc["inits"]):
+        c.add("initial assignment on parameter")
+    if any(k in pids for k, _ in doc["rules"]):
+        c.add("assignment rule on parameter")
+    if any(k not in pids for k, _ in doc["rules"]):
+        c.add("assignment rule on species reference")
+    for r in doc["rxns"]:
+        for x in r["reactants"] + r["products"]:
+            if x[1] is not None and Fraction(x[1]).denominator != 1:
+                c.add("fractional stoichiometry")
+        if not r["reactants"] or not r["products"]:
+            c.add("reaction with one side")
+        if {x[0] for x in r["reactants"]} & {x[0] for x in r["products"]}:
+            c.add("species on both sides")
+    text = json.dumps([x for _, x in doc["inits"]] + [x for _, x in doc["rules"]] + [r["law"] for r in doc["rxns"]]
+                      + [f["body"] for f in doc["fundefs"]])
+    for node in sorted(c17suite.MATH_TYPES):
+        if f'"{node}"' in text:
+            c.add("math " + node[4:].lower())
+    comp_ids = {k for k, _ in doc["comps"]}
+    if any(_math_names(r["law"]) & comp_ids for r in doc["rxns"]):
+        c.add("compartment in kinetic law")
+    return sorted(c)
+
+
+def _is_bool(m) -> bool:
+    return (m[0] == "csym" and m[1] in ("true", "false")) or m[0].startswith("AST_RELATIONAL_") or m[0].startswith("AST_LOGICAL_")
+
+
+def _bool_in_numeric(m, numeric: bool) -> bool:
+    """a truth-valued node where a number is expected"""
+    if m[0] in ("ci", "cn"):
+        return False
+    if _is_bool(m):
+        if numeric:
+            return True
+        return m[0] != "csym" and any(_bool_in_numeric(k, m[0].startswith("AST_RELATIONAL_")) for k in m[1])
+    if m[0] == "csym":
+        return False
+    if m[0] == "call":
+        return any(_bool_in_numeric(k, True) for k in m[2])
+    if m[0] == "AST_FUNCTION_PIECEWISE":
+        kids = m[1]
+        return any(_bool_in_numeric(k, not (i % 2 == 1 and i < len(kids) - (len(kids) % 2))) for i, k in enumerate(kids))
+    return any(_bool_in_numeric(k, True) for k in m[1])
+
+
+def bool_as_number(doc) -> bool:
+    maths = [x for _, x in doc["inits"]] + [x for _, x in doc["rules"]] + [r["law"] for r in doc["rxns"]] + [
+        f["body"] for f in doc["fundefs"]]
+    return any(_bool_in_numeric(x, True) for x in maths)
 
 
 def _uses(doc, node_type: str) -> bool:
@@ -1231,15 +1400,72 @@ def shrink(ctx, viol, budget: int = 40):
 # ---------------------------------------------------------------------------------------------- run
 
 
+def suite_cases(ctx):
+    """stratum `suite`: files of the SBML semantic test suite shipped with the repo that lie inside the document subset
+    (quick: a seeded sample, thorough: all of them); the reasons why the other files are outside go into the evidence"""
+    inside, why = c17suite.classify()
+    for k, v in why.items():
+        ctx.hist[f"suite outside: {k}"] = v
+    ctx.hist["suite inside"] = len(inside)
+    if not inside:
+        return []
+    pick = inside if ctx.n(0, 1) else ctx.rng.sample(inside, min(40, len(inside)))
+    out = []
+    for n, f, doc in pick:
+        comp_ids = {c for c, _ in doc["comps"]}
+        amount_typed = any(sp["isAmount"] and not sp["hosu"] for sp in doc["species"])
+        law_names = set()
+        for r in doc["rxns"]:
+            law_names |= _math_names(r["law"])
+        try:
+            spec = DocSpec(doc)
+            fixed_amounts = {sp["id"]: _val(spec.init_amount(sp["id"])) for sp in doc["species"] if sp.get("fixed")}
+        except Exception:  # noqa: BLE001  (the document does not evaluate at t = 0: division by zero, ...)
+            ctx.hist["suite outside: initial state not evaluable"] = ctx.hist.get("suite outside: initial state not evaluable", 0) + 1
+            continue
+        out.append({"kind": "suite", "doc": doc, "states": c17suite.states_for(doc, ctx.rng, fixed_amounts), "watch": [r[0] for r in doc["rules"]],
+                    # third party, known: the compartment symbol in the law of an amount-typed species (F-C17-4)
+                    "finding": "F-C17-4" if amount_typed and (law_names & comp_ids) else None,
+                    "prev_doc": None, "keep_mtime": False, "raw": None, "stem": f"case{n:05d}", "xml_path": str(f), "suite": n})
+    return out
+
+
+def _math_names(m) -> set:
+    if m[0] == "ci":
+        return {m[1]}
+    if m[0] in ("cn", "csym"):
+        return set()
+    out = set()
+    for k in (m[2] if m[0] == "call" else m[1]):
+        out |= _math_names(k)
+    return out
+
+
 def lean_docs(ctx, cases):
     if not ctx.driver_ok:
         return [None] * len(cases)
     return driver.call_batch([{"op": "c17", "doc": c["doc"], "states": c["states"], "watch": c["watch"]} for c in cases])
 
 
+def check_sessions(ctx, cases, Rs):
+    """stratum `rewrite`: the two reads of one path against `readAll` — module names, and the file of the second module
+    holds the second document's code"""
+    todo = [(c, R["session"]) for c, R in zip(cases, Rs) if isinstance(R, dict) and "session" in R]
+    if not todo or not ctx.driver_ok:
+        return
+    Ms = driver.call_batch([{"op": "c17", "session": s_["reads"]} for _, s_ in todo])
+    for (c, s_), ms in zip(todo, Ms):
+        ctx.hist["session checks (rewrite)"] = ctx.hist.get("session checks (rewrite)", 0) + 1
+        if ms["handles"] != s_["modules"] or ms["module_names"] != s_["modules"] or not ms["intact"][1][0]:
+            ctx.add_drift({k: c.get(k) for k in ("kind", "doc", "prev_doc", "states", "watch", "stem", "keep_mtime")},
+                          s_, ms, "two reads of one path: module names / file of the second module differ from readAll")
+
+
 def check_glue(ctx, cases, Rs):
     """mxlpy's own stage on every imported document: `genModule (importSym <pysbml model>)` against the module text"""
-    todo = [(c, R["glue"]) for c, R in zip(cases, Rs) if "glue" in R]
+    # (stratum `shadow`: the renaming of a parameter that would shadow a name the body calls happens in the text
+    #  generation of `sympy_to_python_fn`, below the level of `genModule`, whose bodies are opaque: numbers only there)
+    todo = [(c, R["glue"]) for c, R in zip(cases, Rs) if "glue" in R and c["kind"] != "shadow"]
     for c, R in zip(cases, Rs):
         if "glue_err" in R:
             ctx.violation({k: c.get(k) for k in ("kind", "doc", "states", "watch", "stem", "raw", "finding")}, R["glue_err"],
@@ -1289,6 +1515,13 @@ def check_stems(ctx):
 
 def setup(ctx):
     ctx.build(PROPS)
+    try:
+        from translate import c17 as tr
+        from vlib.framework import REPO
+
+        DIGEST_LEN[0] = tr.session_facts(REPO)["digest_len"]
+    except Exception:  # noqa: BLE001  (a refusing translator has already broken the proof side in ctx.build)
+        pass
     ctx.rule = (
         "generated SBML L3v2 documents (1-2 constant compartments of size 1, 2, 1/2, 4; 1-3 species given as amount or "
         "concentration, with or without hasOnlySubstanceUnits; parameters constant / rule-defined / with initial "
@@ -1310,11 +1543,13 @@ def setup(ctx):
 
 
 def strata(ctx):
-    n = ctx.n(1, 40)
+    n = ctx.n(1, 32)
     return [("exact", 110 * n), ("float", 60 * n), ("keywords", 40 * n), ("initname", 15 * n), ("mixed", 15 * n),
-            ("srefkw", 12 * n), ("compkw", 6 * n), ("digits", 12 * n), ("gennames", 24 * n), ("rewrite", 20 * n), ("gencollide", 24 * n), ("sparse", 12 * n), ("nearequal", 24 * n), ("idcollide", 6 * n)]
+            ("srefkw", 12 * n), ("compkw", 6 * n), ("digits", 12 * n), ("gennames", 24 * n), ("rewrite", 20 * n), ("gencollide", 24 * n), ("sparse", 12 * n), ("nearequal", 24 * n), ("idcollide", 6 * n), ("boolnum", 6 * n), ("boundary", 20 * n), ("shadow", 12 * n)]
 
 
+#: ids the generated module uses itself: builtins its function bodies call, modules they reach into
+SHADOW_IDS = ["abs", "max", "min", "math"]
 PAIR_STEMS = [("Model-1", "model 1"), ("A", "a"), ("m.v2", "mv2"), ("x", "x"), ("my  model", "my-model")]
 
 
@@ -1322,6 +1557,7 @@ def run(ctx):
     setup(ctx)
     shutil.rmtree(SCRATCH, ignore_errors=True)
     cases = [gen_doc(ctx.rng, stratum=s) for s, c in strata(ctx) for _ in range(c)]
+    cases += suite_cases(ctx)
     for i in range(0, len(cases), 256):
         chunk = cases[i:i + 256]
         Ms = lean_docs(ctx, chunk)
@@ -1329,7 +1565,11 @@ def run(ctx):
         Rs = pool().map(real_worker, list(zip(chunk, imps)), chunksize=4)
         for case, R, M in zip(chunk, Rs, Ms):
             ctx.count({"doc": case["doc"], "states": case["states"]}, case["kind"], "err" not in R)
+            for k in doc_constructs(case["doc"]):
+                key = f"construct {'suite' if case['kind'] == 'suite' else 'generated'}: {k}"
+                ctx.hist[key] = ctx.hist.get(key, 0) + 1
             judge_doc(ctx, case, R, M)
+        check_sessions(ctx, chunk, Rs)
         check_glue(ctx, chunk, Rs)
         if len(ctx.violations) > 20:
             break
@@ -1338,6 +1578,8 @@ def run(ctx):
     for _ in range(ctx.n(24, 240)):
         a, b = gen_doc(ctx.rng, stratum="exact"), gen_doc(ctx.rng, stratum="exact")
         a["pair_stems"] = b["pair_stems"] = ctx.rng.choice(PAIR_STEMS)
+        if ctx.rng.random() < 0.15:
+            b = dict(a)  # the same content under the other stem: same digest, same code
         pairs.append((a, b))
     Ma = lean_docs(ctx, [a for a, _ in pairs])
     Mb = lean_docs(ctx, [b for _, b in pairs])
@@ -1353,7 +1595,17 @@ def run(ctx):
         S = {"a": Sa, "b": Sb, "a_again": Sa, "a_source_ok": True, "b_source_ok": True}
         Rv = {"a": snap(R["a"], Sa), "b": snap(R["b"], Sb), "a_again": snap(R["a_again"], Sa),
               "a_source_ok": R["a_source_ok"], "b_source_ok": R["b_source_ok"]}
-        ctx.judge(case, Rv, S, None, what="a second document read in the same session interferes with the first model")
+        # the Lean session model (Model/C17Session.lean) on what was observed: module names, and whether A's file is intact
+        Mv = None
+        if ctx.driver_ok:
+            ms = driver.call_batch([{"op": "c17", "session": R["session"]}])[0]
+            if ms["handles"] != R["modules"] or ms["module_names"] != R["modules"]:
+                ctx.add_drift(case, R["modules"], ms["handles"], "module names of two reads differ from readAll's handles")
+            if ms["intact"][0][0] != R["a_file_intact"]:
+                ctx.add_drift(case, R["a_file_intact"], ms["intact"][0], "the file of the first model after the second read: session model differs")
+            Mv = dict(Rv, a_source_ok=Rv["a_source_ok"] if ms["intact"][0][0] else False,
+                      b_source_ok=Rv["b_source_ok"] if ms["intact"][1][0] else False)
+        ctx.judge(case, Rv, S, Mv, what="a second document read in the same session interferes with the first model")
     check_stems(ctx)
     check_free_name(ctx)
     c17gen.check_codegen(ctx)
